@@ -45,7 +45,9 @@ static void h_run_case(hcase_t* c) {
   shared_cell = 0;
   t1_setup(n);
   /* rwlock by hand, mirroring fiber_rwlock_init, with stub nodes from our array */
-  rw.state.blob = 0;
+  memset(&rw, 0x5a, sizeof rw);
+  fiber_rwlock_init(&rw);                      /* the real init sets every field (also any a change adds) */
+  free(rw.write_waiters.head); free(rw.read_waiters.head);
   rw.write_waiters.head = &nodes[0]; rw.write_waiters.tail = &nodes[0];
   rw.read_waiters.head = &nodes[1]; rw.read_waiters.tail = &nodes[1];
   for (int t = 0; t < n; t++) {
